@@ -1,5 +1,5 @@
 from kit.runner import Cond
-from . import _d, _l
+from . import _d, _l, _p
 
 LEVEL = "other"
 FUNCTIONS = _d.FUNCTIONS
@@ -8,7 +8,8 @@ EXPLANATION = ("The REAL Parser + TokenMatcher + AstBuilder run under CrossHair 
                "outlines with examples blocks and a rule with background) whose text pieces are symbolic strings; the returned AST must equal the AST "
                "the writer prescribes: every element once, in order, under the right parent, keywords as written, names and step text trimmed, "
                "descriptions per the statement, nothing extra (dict key sets compared). Line level: remainder-of-line trimming for every title / step keyword head")
-ASSUMPTIONS = ["symbolic text pieces: <= 1 (quick) / 2 (thorough) characters each, three per document, any code points except line feed, carriage return, '|' and backslash "
+ASSUMPTIONS = ["kind-level part: matcher contract MC1-MC6 for the stub matcher; the AST census (numbers of nodes per kind and their order of lines) is compared, texts are the document families' subject",
+               "symbolic text pieces: <= 1 (quick) / 2 (thorough) characters each, three per document, any code points except line feed, carriage return, '|' and backslash "
                "(cells / escapes are C12's subject; carriage returns occur only in CRLF line ends); tag names without blanks/'@'/'#'",
                "dialect en; <= 1 rule, <= 2 scenarios, <= 3 steps, <= 2 examples blocks per document"]
 
@@ -25,5 +26,8 @@ def conditions(tier):
         cs += _d.doc_conditions(tier, shapes=("steps", "description"), eols=("\r\n",))
     for kind, head in (("FeatureLine", "Feature:"), ("ScenarioLine", "Scenario Outline:"), ("StepLine", "Given "), ("StepLine", "* "), ("ExamplesLine", "Examples:")):
         cs.append(_l.line1(kind, head, maxlen=2 if q else 3, maxind=1, T=600))
+    # element structure at line-kind level: the REAL parser + REAL AstBuilder from every grammar configuration; the AST must contain
+    # exactly the rules / backgrounds / scenarios / examples / steps / rows / doc strings / tags / comments the specification-level parser opened
+    cs += _p.pdrv_conditions(k_all=1 if q else 2, k_tags=1 if q else 2, stop_too=False)
     cs.append(Cond(_d.M, "twin_never_parses", {"shape": "steps"}, T=120, expect="cex"))
     return cs
